@@ -49,7 +49,11 @@ func c04Filters(rep *evid.Reporter, root *c04State, thorough bool) (patterns, re
 		}}
 		n, errText := st.apply(op)
 		if n == nil {
-			rep.Violation("insert-error:filters", "InsertLogs failed while building the filter fixture: "+errText, map[string]interface{}{"engine": "pgmini-filters"})
+			if interpreterLimit(errText) {
+				rep.Undecide("the interpreter cannot execute the schema / a statement: " + errText)
+			} else {
+				rep.Violation("insert-error:filters", "InsertLogs failed while building the filter fixture: "+errText, map[string]interface{}{"engine": "pgmini-filters"})
+			}
 			return 0, 0
 		}
 		st = n
@@ -298,7 +302,11 @@ func c04ValueFilters(rep *evid.Reporter, root *c04State) (filters, reads int) {
 	for i, mk := range steps {
 		n, errText := st.apply(c04Op{Name: fmt.Sprintf("valuefilters-%d", i), Ledger: "l1", Make: mk})
 		if n == nil {
-			rep.Violation("insert-error:filters", "InsertLogs failed while building the filter fixture: "+errText, map[string]interface{}{"engine": "pgmini-filters"})
+			if interpreterLimit(errText) {
+				rep.Undecide("the interpreter cannot execute the schema / a statement: " + errText)
+			} else {
+				rep.Violation("insert-error:filters", "InsertLogs failed while building the filter fixture: "+errText, map[string]interface{}{"engine": "pgmini-filters"})
+			}
 			return 0, 0
 		}
 		st = n
@@ -311,7 +319,11 @@ func c04ValueFilters(rep *evid.Reporter, root *c04State) (filters, reads int) {
 			return []*ledger.Log{ledger.NewTransactionLogWithDate(t, map[string]metadata.Metadata{ps[0].Destination: {"tier": "gold", "vip": "yes"}}, ledger.Time{})}
 		}})
 		if n == nil {
-			rep.Violation("insert-error:filters", "InsertLogs failed while building the filter fixture: "+errText, map[string]interface{}{"engine": "pgmini-filters"})
+			if interpreterLimit(errText) {
+				rep.Undecide("the interpreter cannot execute the schema / a statement: " + errText)
+			} else {
+				rep.Violation("insert-error:filters", "InsertLogs failed while building the filter fixture: "+errText, map[string]interface{}{"engine": "pgmini-filters"})
+			}
 			return 0, 0
 		}
 		st = n
